@@ -99,6 +99,7 @@ func (s *sock) Send(observer func(duration time.Duration), command ...string) ([
 	if !s.keepalive && len(command) > 1 {
 		// reuse the same connection to send more than one command
 		if _, err := s.send("prompt"); err != nil {
+			s.close()
 			return nil, err
 		}
 	}
